@@ -40,14 +40,14 @@ REAL = ["localcider.backend.wang_landau.WangLandauMachine (__init__, run, run_no
 STUBBED = ["wang_landau.rng and sequence.rng -> tape / counted MT", "wang_landau.t, wang_landau.time, sequence.time -> SimClock",
            "wang_landau.open -> SimFS", "wang_landau.print -> sink"]
 ASSUMPTIONS = ["the requested range coincides with the equal partition (binmin=a/M, binmax=b/M, nbins=b-a); other requests have no exact meaning in bins",
-               "the bin of a kappa is the bin with the nearest centre; runs in which a proposal's kappa leaves [0,1] or sits within 1e-9 of a bin edge are DISCARDED (ambiguity window)",
+               "the bin of a kappa is the bin with the nearest centre (so a kappa above 1, which the delta-max heuristic produces for some compositions, falls in the top bin); runs in which a kappa sits within 1e-9 of a bin edge are DISCARDED (ambiguity window)",
                "a flat check with an all-zero local histogram follows the implementation (0/0) and is not asserted either way",
                "log files are parsed into numeric rows (format-agnostic); values compared within the printed precision; seqlog cadence, elapsed-time output, "
                "number/order of RNG draws inside a move and which move is chosen are not asserted",
                "when run() returns normally every output must agree completely with the model, whether or not a fault was injected; when it fails after an "
                "injected fault (OSError / crash) only prefix-consistency of what is on the simulated disk is required",
                "convergence within the step cap is not required (BUDGET); non-termination of the block/cluster moves is BUDGET"]
-PROBES = ["stopped_at_f_equal_threshold", "flatcheck_exact_tie", "start_outside_range", "proposal_outside_range_with_u_zero", "u_just_below_P", "u_just_above_P", "accepted_uphill", "rejected_step",
+PROBES = ["kappa_above_one_binned_to_top", "stopped_at_f_equal_threshold", "flatcheck_exact_tie", "start_outside_range", "proposal_outside_range_with_u_zero", "u_just_below_P", "u_just_above_P", "accepted_uphill", "rejected_step",
           "flatcheck_flat", "flatcheck_not_flat", "converged", "step_cap_hit", "hook_assisted", "seam_only", "fs_fault_fired", "crash_fired",
           "restart_into_dirty_dir", "restart_after_crash", "oserror_propagated", "partial_range", "warm_sequence_object", "permutants_api",
           "iteration_ge_3", "aborted_by_move", "same_bin_accept", "multi_bin_visit"]
@@ -197,9 +197,7 @@ class Model(object):
         d = self.g[self.idx] - self.g[idx_new]
         if d >= 0:
             return 1.0
-        if d < -745:
-            return 0.0
-        return math.exp(d)
+        return math.exp(d)          # underflows gracefully: denormal down to about -745.13, then exactly 0.0
 
     def book(self, accepted, q, idx_new, skip):
         """applies one step; returns flat-check info or None"""
@@ -323,7 +321,9 @@ class WLSim(object):
     def bin_of(self, s, hook_idx=None):
         k = self.kappa(s)
         if k < -1e-12 or k > 1 + 1e-9:
-            raise Discard("kappa outside the unit interval (%r for %s): no bin of the partition holds it" % (k, s))
+            # the delta-max heuristic underestimates for some compositions (kappa up to ~2): the bin is still the
+            # one with the nearest centre, i.e. the top bin, which is what "its kappa bin" can only mean
+            self.ctx.probe("kappa_above_one_binned_to_top")
         i, edge = self.model.bin(k)
         if edge < 1e-9:
             if hook_idx is not None and self.use_hook and abs(hook_idx - i) <= 1:
